@@ -34,8 +34,17 @@ def linalg_summary(I):
         return nf.inverse(a, "invert_matrix")
 
     def invd(I_, selfobj, args, kw):
+        """invert_diagonal(A) = (1 / diag(A)) * I,  sum_i log A_ii  - whatever A is.  For a matrix with the diagonal precondition this
+        IS (Inv(A), LnDet(A)) (the same normal form nf.inverse produces for d*delta); for any other matrix it is not, and compares unequal."""
         a = args[0] if args else kw["A"]
-        return nf.inverse(a, "invert_diagonal")
+        nt = nf.normalize(a)
+        A_, B_ = a.axes[-2], a.axes[-1]
+        if nt and A_ and B_ and nf._as_diagonal(nt, A_, B_) is not None:
+            return nf.inverse(a, "invert_diagonal")
+        dvec = nf.diagonal(a, -2, -1)
+        rec = nf.elementwise("Recip", dvec)
+        inv = nf.mul(nf.expand_dims(rec, ["k"] * len(rec.axes) + [None]), nf.eye(a.shape[-1]))
+        return inv, nf.sum_axis(nf.elementwise("Log", dvec), -1)
     I.hooks[("utils.linalg", "invert_matrix")] = inv
     I.hooks[("utils.linalg", "invert_diagonal")] = invd
 
@@ -192,8 +201,11 @@ def points(name, N, Dd):
     return nf.atom(name, [N, Dd])
 
 
-def indices(name, size):
-    return IdxArr(name, size, kind="generic")
+def indices(name, size, distinct=False):
+    """a generic index list; distinct=True: no repeated entries (coordinate lists of get_marginal / condition_on)"""
+    a = IdxArr(name, size, kind="generic")
+    a.distinct = bool(distinct)
+    return a
 
 
 # -------------------------------------------------------------------------- reference terms
